@@ -184,12 +184,23 @@ def run(ck, F, E):
                    "Interpreter.%s is written by %s: a program statement could switch the option" % (flag, names))
 
     # ---- trace placement
-    es = get_fn(ck, F, "StatementEvaluator::evaluate_statement")
+    es0 = get_fn(ck, F, "StatementEvaluator::evaluate_statement")
+    es = es0
+    trace_call = None
+    if es0 is not None and not list(aggregates(es0, "interpreter_output::InterpreterOutput", "Trace")):
+        # the tracing prelude may have been given a name: a private helper of the evaluator that evaluate_statement (and
+        # nobody else) calls unconditionally before it dispatches
+        from lib import controlling_switches
+        hosts = [bd for bd in F.bodies.values() if bd.crate == "abasic_core" and list(aggregates(bd, "interpreter_output::InterpreterOutput", "Trace"))]
+        if len(hosts) == 1:
+            callers = [(cb, c) for cb in F.bodies.values() for c in cb.calls() if c.callee == hosts[0].path]
+            if len(callers) == 1 and callers[0][0] is es0 and not controlling_switches(es0, callers[0][1].bb):
+                es, trace_call = hosts[0], callers[0][1]
     if es is not None:
         traces = list(aggregates(es, "interpreter_output::InterpreterOutput", "Trace"))
         ck.require(len(traces) == 1, "C17:TRACE:one-site", "trace placement", "one Trace record site",
                    "expected one Trace construction in evaluate_statement, found %d" % len(traces), es.span)
-        disp = es.calls_to("Program::next_token")
+        disp = es0.calls_to("Program::next_token")
         for (b, i, pl, rv, sp) in traces:
             # guarded by get_line_number() == Some
             ok_guard = False
@@ -229,7 +240,10 @@ def run(ck, F, E):
                        "whether a trace record is emitted also depends on %s: the trace no longer names every numbered line "
                        "execution passes through (a record can be suppressed by earlier, untraced execution)" % extra, sp)
             # trace happens before dispatch: the dispatch next_token is not reachable *to* the trace
-            ok_before = bool(disp) and all(not es.reaches(d.bb, b) for d in disp)
+            if trace_call is None:
+                ok_before = bool(disp) and all(not es.reaches(d.bb, b) for d in disp)
+            else:
+                ok_before = bool(disp) and all(not es0.reaches(d.bb, trace_call.bb) for d in disp) and not es.calls_to("Program::next_token")
             ck.require(ok_before, "C17:TRACE:before-dispatch", "trace placement",
                        "the Trace push precedes the statement dispatch", "a statement is dispatched before its trace record", sp)
         # exactly one other place may create Trace records: none
